@@ -96,6 +96,53 @@ func shutConfigs() []shutCfg {
 			w.closerAfterRun()
 		}
 	})
+	// the connection is already closed (inside the same callback) when OnTraffic returns Shutdown
+	add("shutdown-from-ontraffic/after-elclose", false, func(w *world) {
+		w.onTraffic = func(w *world, ci *connInfo) Action {
+			_, _ = ci.c.Discard(-1)
+			_ = ci.c.EventLoop().Close(ci.c)
+			return Shutdown
+		}
+		w.script = func(w *world) {
+			done := 0
+			w.peerThread("peer", &done, func(p *peer) {
+				if p.connect() {
+					p.send([]byte("x"))
+				}
+			})
+			w.closerAfterRun()
+		}
+	})
+	add("shutdown-from-ontraffic/after-failed-write", false, func(w *world) {
+		w.onTraffic = func(w *world, ci *connInfo) Action {
+			_, _ = ci.c.Discard(-1)
+			sched.BlockUntil(func() bool { return w.peers[0].fd < 0 }) // the peer has gone: the write below fails
+			_, _ = ci.c.Write(make([]byte, 1024))
+			return Shutdown
+		}
+		w.script = func(w *world) {
+			done := 0
+			w.peerThread("peer", &done, func(p *peer) {
+				if p.connect() {
+					p.send([]byte("x"))
+					p.close()
+				}
+			})
+		}
+	})
+	add("shutdown-from-ontraffic/wake", false, func(w *world) {
+		// OnTraffic runs because of Conn.Wake (eventloop.wake, no inbound data) and returns Shutdown
+		w.onTraffic = func(w *world, ci *connInfo) Action { return Shutdown }
+		w.script = func(w *world) {
+			done := 0
+			idlePeer(w, &done)
+			sched.Go("user", func() {
+				sched.BlockUntil(func() bool { return len(w.conns) > 0 && w.conns[0].opens > 0 })
+				_ = w.conns[0].c.Wake(nil)
+			})
+			w.closerAfterRun()
+		}
+	})
 	add("shutdown-from-onclose/peer-close", false, func(w *world) {
 		w.onTraffic = func(w *world, ci *connInfo) Action { _, _ = ci.c.Discard(-1); return None }
 		w.onClose = func(w *world, ci *connInfo, err error) Action { return Shutdown }
@@ -512,6 +559,192 @@ func clientUDPWorld(et bool) sched.Scenario {
 		}
 		if string(ci.consumed) != "reply" {
 			return fmt.Sprintf("OnTraffic of the client UDP socket saw %q", ci.consumed), "client-udp:payload"
+		}
+		if m, s := fdCheck(w, out); m != "" {
+			return m, s
+		}
+		return "", ""
+	})
+	return cw
+}
+
+// clientUDPLateWorld: a connected client UDP socket A is closed (Conn.Close); a second socket B is
+// enrolled and takes over A's descriptor number; late Wake/Close requests through A's handle must be
+// no-ops and in particular must not act on B (C04: "none of them ever acting on another connection").
+func clientUDPLateWorld(et bool) sched.Scenario {
+	w := newWorld("client-udp-late-ops")
+	cw := &clientWorld{world: w}
+	w.onOpen = func(w *world, ci *connInfo) ([]byte, Action) { return []byte("hello"), None }
+	w.onTraffic = func(w *world, ci *connInfo) Action {
+		b, _ := ci.c.Next(-1)
+		ci.consumed = append(ci.consumed, b...)
+		return None
+	}
+	cw.body = func(cw *clientWorld) {
+		opts := []Option{WithLogger(nopLogger{}), WithNumEventLoop(1)}
+		if et {
+			opts = append(opts, WithEdgeTriggeredIO(true))
+		}
+		cli, err := NewClient(&mcHandler{w}, opts...)
+		if err != nil {
+			w.violate("client:new", "NewClient: %v", err)
+			return
+		}
+		if err := cli.Start(); err != nil {
+			w.violate("client:start", "Client.Start: %v", err)
+			return
+		}
+		port := 30000 + (os.Getpid()%5000)*2
+		pfd, _, err := mcsys.PUDPSocket(false, port)
+		if err != nil {
+			w.violate("client:harness", "udp socket: %v", err)
+			return
+		}
+		dial := func() *net.UDPConn {
+			nc, err := net.DialUDP("udp4", nil, &net.UDPAddr{IP: net.IPv4(127, 0, 0, 1), Port: port})
+			if err != nil {
+				w.violate("client:harness", "dial: %v", err)
+				return nil
+			}
+			return nc
+		}
+		ncA := dial()
+		if ncA == nil {
+			return
+		}
+		sched.Go("peer", func() {
+			buf := make([]byte, 2048)
+			for i := 0; i < 2; i++ {
+				sched.BlockUntil(func() bool { return mcsys.FdReadable(pfd) })
+				_, from, err := mcsys.PRecvfrom(pfd, buf)
+				if err == nil && i == 0 {
+					_ = mcsys.PSendto(pfd, []byte("reply"), from)
+					settle(nil)
+				}
+			}
+		})
+		if _, err := cli.Enroll(ncA); err != nil {
+			w.violate("client:enroll", "Client.Enroll(udp A): %v", err)
+			return
+		}
+		// A is closed with Conn.Close once it has seen the reply (a Close action returned from OnTraffic
+		// is honoured for connected UDP sockets by the default build only: the poll_opt build routes
+		// them through readUDP, which ignores it like for server-side UDP; not covered by a property)
+		sched.BlockUntil(func() bool { return len(w.conns) > 0 && w.conns[0].traffics > 0 })
+		sched.WaitIdle()
+		_ = w.conns[0].c.Close()
+		sched.BlockUntil(func() bool { return w.conns[0].closes > 0 })
+		sched.WaitIdle()
+		// dialled only now: Enroll closes the net.Conn it is given, so B's socket takes ncA's old
+		// number and its duplicate takes the number A's duplicate had
+		ncB := dial()
+		if ncB == nil {
+			return
+		}
+		if _, err := cli.Enroll(ncB); err != nil {
+			w.violate("client:enroll", "Client.Enroll(udp B): %v", err)
+			return
+		}
+		sched.BlockUntil(func() bool { return len(w.conns) > 1 && w.conns[1].opens > 0 })
+		sched.WaitIdle()
+		a, b := w.conns[0], w.conns[1]
+		if a.fd != b.fd {
+			w.obs = append(w.obs, "no-fd-reuse")
+		}
+		tB := b.traffics
+		wakeCb, closeCb := 0, 0
+		_ = a.c.Wake(func(Conn, error) error { wakeCb++; return nil })
+		_ = a.c.CloseWithCallback(func(Conn, error) error { closeCb++; return nil })
+		_ = a.c.Close()
+		sched.WaitIdle()
+		sched.WaitIdle()
+		if b.closes > 0 {
+			w.violate("late:wrongconn", "a late Close on the closed client UDP socket #0 closed socket #1, which re-uses descriptor %d", b.fd)
+		}
+		if b.traffics != tB {
+			w.violate("late:wrongconn", "a late Wake on the closed client UDP socket #0 caused OnTraffic on socket #1, which re-uses descriptor %d", b.fd)
+		}
+		w.runErr = cli.Stop()
+		_ = mcsys.PClose(pfd)
+	}
+	w.checks = append(w.checks, checkEnd, func(w *world, out *sched.Outcome) (string, string) {
+		for _, ci := range w.conns {
+			if ci.opens != 1 || ci.closes != 1 || len(ci.afterClose) > 0 {
+				return fmt.Sprintf("client UDP socket #%d: OnOpen %d times, OnClose %d times, after close: %v", ci.id, ci.opens, ci.closes, ci.afterClose), "client-udp:lifecycle"
+			}
+		}
+		if len(w.conns) != 2 {
+			return fmt.Sprintf("%d connections were opened (want 2)", len(w.conns)), "client-udp:open"
+		}
+		if m, s := fdCheck(w, out); m != "" {
+			return m, s
+		}
+		return "", ""
+	})
+	return cw
+}
+
+// clientTwoLoopWorld: a Client with two event loops; two user goroutines enrol one connection each,
+// concurrently. Whatever loop the balancer picks, every callback of a connection runs on the
+// thread of the loop the connection reports (world.enter: one thread per EventLoop), the echo
+// works and Stop closes both.
+func clientTwoLoopWorld(et bool) sched.Scenario {
+	w := newWorld("client-two-loops")
+	cw := &clientWorld{world: w}
+	w.onTraffic = echoTraffic
+	cw.body = func(cw *clientWorld) {
+		opts := []Option{WithLogger(nopLogger{}), WithNumEventLoop(2)}
+		if et {
+			opts = append(opts, WithEdgeTriggeredIO(true))
+		}
+		cli, err := NewClient(&mcHandler{w}, opts...)
+		if err != nil {
+			w.violate("client:new", "NewClient: %v", err)
+			return
+		}
+		if err := cli.Start(); err != nil {
+			w.violate("client:start", "Client.Start: %v", err)
+			return
+		}
+		done := 0
+		for i := 0; i < 2; i++ {
+			nc, pfd, err := socketpairConn()
+			if err != nil {
+				w.violate("client:socketpair", "%v", err)
+				return
+			}
+			p := w.newPeer()
+			p.fd = pfd
+			msg := []byte(fmt.Sprintf("ping%d", i))
+			sched.Go(fmt.Sprintf("user%d", i), func() {
+				defer func() { done++ }()
+				if _, err := cli.Enroll(nc); err != nil {
+					w.violate("client:enroll", "Client.Enroll: %v", err)
+					return
+				}
+				p.send(msg)
+				p.recv(len(msg))
+				if string(p.got) != string(msg) {
+					w.violate("client:echo", "client connection echoed %q instead of %q", p.got, msg)
+				}
+			})
+		}
+		sched.BlockUntil(func() bool { return done >= 2 })
+		sched.WaitIdle()
+		w.runErr = cli.Stop()
+		for _, p := range w.peers {
+			p.recvAvail()
+			p.close()
+		}
+	}
+	w.checks = append(w.checks, checkEnd, func(w *world, out *sched.Outcome) (string, string) {
+		for _, ci := range w.conns {
+			if ci.opens != 1 || ci.closes != 1 || len(ci.afterClose) > 0 {
+				return fmt.Sprintf("client connection #%d: OnOpen %d times, OnClose %d times, after close: %v", ci.id, ci.opens, ci.closes, ci.afterClose), "client:lifecycle"
+			}
+		}
+		if len(w.conns) != 2 {
+			return fmt.Sprintf("%d connections were opened (want 2)", len(w.conns)), "client:open"
 		}
 		if m, s := fdCheck(w, out); m != "" {
 			return m, s
